@@ -5,7 +5,11 @@ PID = "C06"
 
 def run():
     t = core.tier() == "thorough"
-    return macfam.run(PID, [f"hist={40 if t else 4}", f"steps={70 if t else 45}", "profile=faults"],
+    return macfam.run(PID, [[f"hist={40 if t else 4}", f"steps={70 if t else 45}", "profile=faults"],
+                            # enumerated: every async procedure (send | join) x RX1 x RX2 outcome x fault position 0..9, followed by a second one
+                            ["cmd=awalk"],
+                            # enumerated: the nb state machine under free-form event sequences
+                            ["cmd=nbwalk"]],
         'uplink counter / MIC counter deviates (reuse or wrap)',
         'seeded random histories with a radio fault at a random call position in half of the async procedures, confirmed/unconfirmed sends, RX1/RX2 hits, timeouts, invalid frames, Class C receptions; every transmitted uplink is decoded by Codec.tla (wire counter = low half, MIC under the full counter) and the counter after every call is compared with Mac.tla (consumed also when the procedure aborts after a successful tx)',
         macfam.COMMON_ASSUMPTIONS, mc=[("MCFront.tla", "MCFront.cfg", {"workers": 8})])
